@@ -227,11 +227,29 @@ func (w *World) DoPut(t *rapid.T, a mm.Addr) {
 	// revival of the LOCK itself): whether the lock hides the tombstone is not specified
 	w.M = before.Clone()
 	q := w.M.Quirks
-	w.M.Quirks.LockOverridesTombstone = !q.LockOverridesTombstone
-	if w.M.PutWith(s, w.Epoch, got) == got {
+	involved := []mm.Addr{a}
+	if ph, ok := mm.ParentHeader(s); ok {
+		involved = append(involved, mm.Addr{C: a.C, I: ph.ID})
+	}
+	if s.Kind == uni.Lock || s.Kind == uni.Tombstone {
+		involved = append(involved, mm.Addr{C: a.C, I: s.Target})
+	}
+	ambiguous := false
+	for _, x := range involved {
+		r1 := w.M.Reasons(x, w.Epoch, false)
+		w.M.Quirks.LockOverridesTombstone = !q.LockOverridesTombstone
+		r2 := w.M.Reasons(x, w.Epoch, false)
 		w.M.Quirks = q
-		w.Seen["lock-vs-tombstone-unspecified"] = true
-		return
+		ambiguous = ambiguous || r1 != r2
+	}
+	if ambiguous {
+		w.M.Quirks.LockOverridesTombstone = !q.LockOverridesTombstone
+		res := w.M.PutWith(s, w.Epoch, got)
+		w.M.Quirks = q
+		if res == got {
+			w.Seen["lock-vs-tombstone-unspecified"] = true
+			return
+		}
 	}
 	w.M = before
 	if w.OnAdmission != nil && w.OnAdmission(w, s, want, got) {
